@@ -191,7 +191,7 @@ def library_xpaths():
     import ast
     import glob
     out = set()
-    for f in glob.glob("/repo/space_packet_parser/**/*.py", recursive=True):
+    for f in glob.glob(os.environ.get("VERIF_REPO", "/repo") + "/space_packet_parser/**/*.py", recursive=True):
         tree = ast.parse(open(f).read())
         for node in ast.walk(tree):
             if isinstance(node, ast.Call) and isinstance(node.func, ast.Attribute) and node.func.attr in ("find", "findall", "iterfind") and node.args:
